@@ -117,6 +117,9 @@ type c13Plan struct {
 	gate  string
 	// reopen > 0: version `reopen` arrives as didClose + didOpen instead of didChange
 	reopen int
+	// dupK > 0: version dupK is the text of version dupJ < dupK plus a trailing comment line, so
+	// the two have equal diagnostics although the text differs (a publish that is "nothing new")
+	dupK, dupJ int
 }
 
 func c13Plans(tier string) []c13Plan {
@@ -161,6 +164,22 @@ func c13Plans(tier string) []c13Plan {
 			}
 		}
 	}
+	// versions with equal diagnostics: all two- and three-event schedules for 3 versions, for each
+	// way one version repeats the diagnostics of an earlier one
+	for _, dj := range [][2]int{{2, 1}, {2, 0}, {1, 0}} {
+		for _, root := range []bool{false, true} {
+			if root && tier != "thorough" {
+				continue
+			}
+			for i := range schedules(3) {
+				ps = append(ps, c13Plan{n: 3, sched: i, root: root, dupK: dj[0], dupJ: dj[1]})
+			}
+			for i := range schedulesOf(3, true) {
+				ps = append(ps, c13Plan{n: 3, sched: i, root: root, three: true, gate: "diag.loaded", dupK: dj[0], dupJ: dj[1]})
+				ps = append(ps, c13Plan{n: 3, sched: i, root: root, three: true, gate: "diag.enter", dupK: dj[0], dupJ: dj[1]})
+			}
+		}
+	}
 	k4 := 600
 	if tier == "thorough" {
 		k4 = 0
@@ -195,7 +214,7 @@ func init() {
 	Register(&Prop{
 		ID:          "C13",
 		Race:        true,
-		Rule:        "bursts of 2-5 versions (didOpen + didChange) of one document, each out of balance by a distinct amount so that a payload identifies its version; the stub client parks every PublishDiagnostics call and the controller realises a schedule = linear extension of {change_i < change_i+1, change_i < deliver_i}, waiting for goroutine-state quiescence between steps. All 3/15/105 schedules for 2/3/4 versions are enumerated (945 for 5 in the thorough tier, sampled in quick), with and without workspace root; two-document bursts interleave two schedules (sampled). Oracle: at final quiescence the last delivered diagnostics per document equal those a fresh server publishes for the final text. The same schedules with one version arriving as didClose+didOpen instead of didChange (2 and 3 versions, every position). Three-event schedules additionally hold every analysis at the diag.loaded hook (before the publishing point): all 10/280 for 2/3 versions, 4 versions sampled (quick) or all 15400 (thorough). Non-trivial = a schedule that asks for a delivery order different from the change order, or any three-event schedule (whether the implementation lets it happen is counted separately: out_of_order_deliveries_realised, infeasible_release_steps); distinct by schedule string.",
+		Rule:        "bursts of 2-5 versions (didOpen + didChange) of one document, each out of balance by a distinct amount so that a payload identifies its version; the stub client parks every PublishDiagnostics call and the controller realises a schedule = linear extension of {change_i < change_i+1, change_i < deliver_i}, waiting for goroutine-state quiescence between steps. All 3/15/105 schedules for 2/3/4 versions are enumerated (945 for 5 in the thorough tier, sampled in quick), with and without workspace root; two-document bursts interleave two schedules (sampled). Oracle: at final quiescence the last delivered diagnostics per document equal those a fresh server publishes for the final text. The same schedules with one version arriving as didClose+didOpen instead of didChange (2 and 3 versions, every position). All two- and three-event schedules of 3 versions again with one version repeating the diagnostics (not the text) of an earlier one, in each of the three ways (a publish that carries nothing new must still not leave older diagnostics as the final word). Three-event schedules additionally hold every analysis at the diag.loaded hook (before the publishing point): all 10/280 for 2/3 versions, 4 versions sampled (quick) or all 15400 (thorough). Non-trivial = a schedule that asks for a delivery order different from the change order, or any three-event schedule (whether the implementation lets it happen is counted separately: out_of_order_deliveries_realised, infeasible_release_steps); distinct by schedule string.",
 		Notes:       []string{"gates exist only at the client boundary (PublishDiagnostics); a release step whose call never arrives (suppressed by the implementation) is recorded as infeasible, not as an error", "runs under the race detector (by-catch)"},
 		Cases:       func(tier string) int64 { return int64(len(c13Plans(tier))) },
 		Exhaustive:  func(tier string) bool { return true },
@@ -270,6 +289,18 @@ func runC13(c *Ctx, idx int64) {
 		}
 	}
 	uris := []protocol.DocumentURI{s.URI("d0.journal"), s.URI("d1.journal")}
+	txt := func(doc, ver int) string {
+		if pl.dupK > 0 && ver == pl.dupK {
+			return c13Text(doc, pl.dupJ) + fmt.Sprintf("; version %d: the entries of version %d again\n", ver, pl.dupJ)
+		}
+		return c13Text(doc, ver)
+	}
+	canon := func(ver int) int {
+		if pl.dupK > 0 && ver == pl.dupK {
+			return pl.dupJ
+		}
+		return ver
+	}
 	var trace []string
 	infeasible := 0
 	lastSent := make([]int, ndocs)
@@ -307,12 +338,12 @@ func runC13(c *Ctx, idx int64) {
 			blocked, bdump, done := s.Do(func() {
 				switch {
 				case ver == 0:
-					s.Open(uris[doc], c13Text(doc, 0))
+					s.Open(uris[doc], txt(doc, 0))
 				case ver == pl.reopen:
 					s.Close(uris[doc])
-					s.Open(uris[doc], c13Text(doc, ver))
+					s.Open(uris[doc], txt(doc, ver))
 				default:
-					s.ChangeFull(uris[doc], c13Text(doc, ver))
+					s.ChangeFull(uris[doc], txt(doc, ver))
 				}
 			})
 			if blocked {
@@ -334,7 +365,7 @@ func runC13(c *Ctx, idx int64) {
 		}
 		var target *gatedCall
 		for _, gc := range s.Stub.Gated() {
-			if gc.Kind == "publish" && gc.URI == uris[g.doc] && payloadVersion(gc.Params, g.doc) == g.st.I {
+			if gc.Kind == "publish" && gc.URI == uris[g.doc] && payloadVersion(gc.Params, g.doc) == canon(g.st.I) {
 				target = gc
 				break
 			}
@@ -364,6 +395,10 @@ func runC13(c *Ctx, idx int64) {
 	if pl.three {
 		c.Count("three_event_schedules_run", 1)
 	}
+	if pl.dupK > 0 {
+		c.Count("schedules_with_versions_of_equal_diagnostics", 1)
+		trace = append(trace, fmt.Sprintf("(version %d has the diagnostics of version %d)", pl.dupK, pl.dupJ))
+	}
 	if pl.reopen > 0 {
 		c.Count("schedules_with_close_and_reopen", 1)
 		trace = append(trace, fmt.Sprintf("(version %d arrives as didClose+didOpen)", pl.reopen))
@@ -387,7 +422,7 @@ func runC13(c *Ctx, idx int64) {
 		c.Count("reordering_schedules_attempted", 1)
 	}
 	if reorders || pl.three {
-		c.Nontrivial(HashStr(fmt.Sprint(pl.root, pl.gate, pl.three, pl.reopen) + strings.Join(trace, " ")))
+		c.Nontrivial(HashStr(fmt.Sprint(pl.root, pl.gate, pl.three, pl.reopen, pl.dupK, pl.dupJ) + strings.Join(trace, " ")))
 	}
 	if dump != "" {
 		c.Violate(Violation{Kind: "deadlock", Sig: "C13:deadlock", Pool: "n/a", Detail: "server goroutines remain blocked after every parked call was released", Witness: map[string]any{"schedule": trace, "dump": trimStack(dump)}})
@@ -398,7 +433,7 @@ func runC13(c *Ctx, idx int64) {
 		hg.SetPoints() // the reference server runs without gates
 	}
 	for d := 0; d < ndocs; d++ {
-		final := c13Text(d, ns[d]-1)
+		final := txt(d, ns[d]-1)
 		fdir := fmt.Sprintf("%s/c13f-%d-%d", c.Dir, idx, d)
 		if pl.root {
 			os.MkdirAll(fdir, 0o755)
